@@ -11,9 +11,9 @@ KANI = [{
         H("bisect_%d" % n, ["C03"], "bounded", "trees of %d entries (names of 1-2 bytes, any u16 mode) sorted by the real order x any probe name x file/dir" % n,
           tier="quick" if n <= 3 else "thorough", timeout=1800, functions=["gix_object::TreeRef::bisect_entry"]) for n in (1, 2, 3, 4)] + [
         H("mode_roundtrip", ["C01", "C03"], "full", "every u16 mode", functions=["gix_object::tree::EntryMode::as_bytes", "<gix_object::tree::EntryMode as TryFrom<&[u8]>>::try_from", "gix_object::tree::ref_iter::mode_from_decimal", "gix_object::tree::EntryMode::kind", "gix_object::tree::EntryMode::is_tree"]),
-        H("tree_size_1", ["C01"], "bounded", "trees of 1 entry (name 1-2 bytes, any u16 mode, any first id byte): size()==bytes written, TreeRefIter decodes it back", functions=["<gix_object::TreeRef as WriteTo>::write_to", "<gix_object::TreeRef as WriteTo>::size", "<gix_object::Tree as WriteTo>::write_to", "<gix_object::Tree as WriteTo>::size", "gix_object::tree::ref_iter::decode::fast_entry"]),
-        H("tree_size_2", ["C01"], "bounded", "trees of 2 sorted entries", timeout=1800, functions=["<gix_object::TreeRef as WriteTo>::write_to", "<gix_object::TreeRef as WriteTo>::size", "<gix_object::Tree as WriteTo>::write_to", "<gix_object::Tree as WriteTo>::size", "gix_object::tree::ref_iter::decode::fast_entry"]),
-        H("loose_header_u16", ["C01"], "bounded", "4 kinds x every size < 2^16", functions=["gix_object::encode::loose_header", "gix_object::decode::loose_header"]),
+        H("tree_size_1", ["C01"], "bounded", "trees of 1 entry (name 1-2 bytes, any u16 mode, any first id byte): size()==bytes written, TreeRefIter decodes it back", tier="off", functions=["<gix_object::TreeRef as WriteTo>::write_to", "<gix_object::TreeRef as WriteTo>::size", "<gix_object::Tree as WriteTo>::write_to", "<gix_object::Tree as WriteTo>::size", "gix_object::tree::ref_iter::decode::fast_entry"]),
+        H("tree_size_2", ["C01"], "bounded", "trees of 2 sorted entries", tier="off", timeout=1800, functions=["<gix_object::TreeRef as WriteTo>::write_to", "<gix_object::TreeRef as WriteTo>::size", "<gix_object::Tree as WriteTo>::write_to", "<gix_object::Tree as WriteTo>::size", "gix_object::tree::ref_iter::decode::fast_entry"]),
+        H("loose_header_u16", ["C01"], "bounded", "4 kinds x every size < 2^16", tier="off", functions=["gix_object::encode::loose_header", "gix_object::decode::loose_header"]),
         H("tree_iter_any_12", ["C06"], "bounded", "TreeRefIter over every 12-byte input", functions=["gix_object::TreeRefIter::next", "gix_object::tree::ref_iter::decode::fast_entry"]),
         H("tree_iter_any_28", ["C06"], "bounded", "TreeRefIter over every 28-byte input (room for one whole entry)", timeout=1800, functions=["gix_object::TreeRefIter::next", "gix_object::tree::ref_iter::decode::fast_entry"]),
         H("mode_any_8", ["C06"], "bounded", "EntryMode::try_from over every 8-byte input", functions=["<gix_object::tree::EntryMode as TryFrom<&[u8]>>::try_from"]),
